@@ -2,6 +2,7 @@ import MgpuModel.Util
 import MgpuModel.C03S_Types
 import MgpuModel.C03S_Spec
 import MgpuModel.C03S_Machine
+import MgpuModel.Gen.AluScalar
 /-! # C03 (scalar part) — driver entry
 
 `c03 s <arch> <hexbytes> scc= vcc= exec= pc= m0= s=<idx>:<hex>,…`
@@ -13,12 +14,23 @@ namespace C03S
 def specSem (d : DInst) : Option Sem :=
   (Spec.find d.fmt d.op).map fun o => ⟨o.dstW, o.src0W, o.src1W, o.f⟩
 
+/-- the handler translated from the Go source; operand widths as in the specification table (they
+    are the decoder's, property C04).  A hand-modelled handler (`Gen.<arch>.handModelled`) has no
+    translated definition: its model is the specification function itself. -/
+def genSem (arch : String) (d : DInst) : Option Sem := do
+  let o ← Spec.find d.fmt d.op
+  let (disp, tab) := if arch == "gen.gcn3" then (Gen.gcn3.dispatch, Gen.gcn3.table) else (Gen.cdna3.dispatch, Gen.cdna3.table)
+  match disp d.fmt d.op with
+  | some f => some ⟨o.dstW, o.src0W, o.src1W, f⟩
+  | none => if tab.any (fun r => r.1 == d.fmt && r.2.1 == d.op) then some ⟨o.dstW, o.src0W, o.src1W, o.f⟩ else none
+
 def handle (line : String) : String :=
   match Util.words line with
   | _ :: _ :: arch :: hex :: rest =>
     match parseInst hex, parseState rest with
     | some d, some st =>
-      let sem := if arch == "gcn3" || arch == "cdna3" then specSem d else none
+      let sem := if arch == "gcn3" || arch == "cdna3" then specSem d
+                 else if arch == "gen.gcn3" || arch == "gen.cdna3" then genSem arch d else none
       match sem with
       | none => "nospec"
       | some sem =>
